@@ -34,6 +34,7 @@ const (
 	NH     = 4 // holders 1..4; account 0 is the basket module
 	SUFFIX = "vv"
 	T0     = int64(1700000000)
+	NS     = int64(1000000000) // block times are unix nanoseconds
 )
 
 func denomID(s string) int {
@@ -199,7 +200,7 @@ func startHist(kind string, cfg types.Basket, funds [][]int64, dist hx.Counter) 
 			fund(ctx, holders[h], d, funds[h][d])
 		}
 	}
-	h := &hist{ctx: ctx, now: T0, dist: dist}
+	h := &hist{ctx: ctx, now: T0*NS + 123456789, dist: dist}
 	h.cur = observe(ctx)
 	h.init = h.cur
 	h.j = jcase{Kind: kind, Denoms: denoms, Init: h.cur.json()}
@@ -212,7 +213,7 @@ func (h *hist) run(opCoq string, name string, args map[string]interface{}, f fun
 	if h.dead {
 		return false
 	}
-	base := h.ctx.WithBlockTime(time.Unix(h.now, 0).UTC())
+	base := h.ctx.WithBlockTime(time.Unix(0, h.now).UTC())
 	cc, write := base.CacheContext()
 	var err error
 	p := hx.Try(func() { err = f(cc) })
@@ -685,20 +686,31 @@ func (h *hist) genEdit(r *hx.Rng) {
 	h.edit(nb)
 }
 
+// advance moves the block time: often not at all (several messages in one block), by a few
+// nanoseconds, by seconds with a sub-second part, by half a period, by exactly one period, or by a
+// period plus / minus a nanosecond
 func (h *hist) advance(r *hx.Rng) {
-	switch r.Intn(10) {
-	case 0, 1, 2:
-	case 3, 4, 5, 6:
-		h.now += r.Range(1, 5)
-	case 7, 8:
-		h.now += int64(h.cur.B.LimitsPeriod)/2 + r.Range(0, 3)
+	P := int64(h.cur.B.LimitsPeriod) * NS
+	switch r.Intn(12) {
+	case 0, 1, 2, 3:
+	case 4:
+		h.now += r.Range(1, 999)
+	case 5, 6, 7:
+		h.now += r.Range(1, 5)*NS + r.Range(0, NS-1)
+	case 8:
+		h.now += P/2 + r.Range(0, 3)
+	case 9:
+		h.now += P
+	case 10:
+		h.now += P + []int64{-1, 1}[r.Intn(2)]
 	default:
-		h.now += int64(h.cur.B.LimitsPeriod) + r.Range(0, 3)
+		h.now += P + r.Range(0, 3*NS)
 	}
 }
 
 func genHistory(r *hx.Rng, dist hx.Counter) *hist {
 	h := startHist("random", genConfig(r), genFunds(r), dist)
+	h.now += r.Range(0, NS-1)
 	n := 10 + r.Intn(18)
 	// start with a few mints by different holders so that burns and swaps have something to act on
 	for i := 0; i < 2+r.Intn(2); i++ {
@@ -740,41 +752,117 @@ func genHistory(r *hx.Rng, dist hx.Counter) *hist {
 	return h
 }
 
-// per-period limits at the edges of the window: operations exactly one period apart (the entry at
-// now-period still counts), one second later (it no longer does), sums just below / at / above the maximum
+// per-period limits at the edges of the window and inside one block: several holders act at the SAME
+// block time (which has a sub-second part), operations exactly one period apart (the entry at
+// now-period still counts), one nanosecond later (it no longer does), sums just below / at / above
+// the maximum
 func genWindowHistory(r *hx.Rng, dist hx.Counter) *hist {
 	cfg := plainConfig("1", "2")
 	cfg.SwapFee, cfg.SlipppageFeeMin = sdk.ZeroDec(), sdk.ZeroDec()
 	P := []int64{1, 10, 100, 3600}[r.Intn(4)]
 	cfg.LimitsPeriod = uint64(P)
+	P *= NS
 	m := r.Range(1000, 5000)
 	cfg.MintsMax, cfg.BurnsMax, cfg.SwapsMax = sdk.NewInt(3*m), sdk.NewInt(m+m/2), sdk.NewInt(m)
 	h := startHist("window", cfg, plainFunds(), dist)
+	h.now += r.Range(0, NS-1)
 	edge := func() int64 { return []int64{-1, 0, 0, 1}[r.Intn(4)] }
-	// mints: 2m now, then m+edge (sum 3m+edge against 3m) exactly one period later, then again one second after that
-	h.mint(1, []int{1, 2}, []int64{m, m / 2})
-	h.now += P
+	// mints: two holders m each in ONE block, a third m+edge in the same block (sum 3m+edge against 3m)
+	h.mint(1, []int{1, 2}, []int64{m / 2, m / 4})
+	h.mint(3, []int{1, 2}, []int64{m / 2, m / 4})
 	x := m + edge()
 	h.mint(2, []int{1}, []int64{x})
+	// exactly one period later the whole block still counts, one nanosecond after that it does not
+	h.now += P
+	h.mint(2, []int{1}, []int64{x})
 	h.now++
 	h.mint(2, []int{1}, []int64{x})
-	// burns by two holders: m, then m/2+edge one period later, one second later
+	h.mint(4, []int{1}, []int64{2*m + edge()})
+	// burns by three holders in one block: m/2, m/2, m/2+edge (1.5m+edge against 1.5m), then the window edge
 	h.now += 2*P + 2
-	h.burn(1, 0, m)
+	h.burn(1, 0, m/2)
+	h.burn(3, 0, m/2)
+	h.burn(2, 0, m/2+edge())
 	h.now += P
 	h.burn(2, 0, m/2+edge())
 	h.now++
 	h.burn(2, 0, m/2+edge())
-	// swaps valued m/2, then m/2+edge at the edge of the window, and after it
+	// swaps: two messages in one block and two pairs in one message, total m+edge against m
 	h.now += 2*P + 2
 	h.swap(3, []pair{{1, m / 2, 2}})
+	h.swap(4, []pair{{2, (m/2 + edge()) / 2, 1}})
+	h.now += 2*P + 2
+	h.swap(3, []pair{{1, m / 2, 2}, {2, (m/2 + edge()) / 2, 1}})
 	h.now += P
-	h.swap(3, []pair{{2, (m/2 + edge()) / 2, 1}})
+	h.swap(3, []pair{{1, edge() + 1, 2}})
 	h.now++
 	h.swap(3, []pair{{1, m/2 + edge(), 2}})
 	if r.Bool() {
 		h.endBlock()
 		h.mint(3, []int{1, 2}, []int64{m, m / 2})
+	}
+	return h
+}
+
+// blocks: random configuration with maxima a few actions wide; each block (one block time with a
+// random sub-second part) carries several actions of one kind by different holders; consecutive
+// blocks lie a few nanoseconds, some seconds, or exactly one period apart
+func genBlockHistory(r *hx.Rng, dist hx.Counter) *hist {
+	cfg := plainConfig(weightPool[r.Intn(len(weightPool))], weightPool[r.Intn(len(weightPool))])
+	cfg.SwapFee, cfg.SlipppageFeeMin = pick(r, feePool[:5]), sdk.ZeroDec()
+	P := []int64{1, 5, 60}[r.Intn(3)]
+	cfg.LimitsPeriod = uint64(P)
+	P *= NS
+	m := r.Range(2000, 200000)
+	cfg.MintsMax, cfg.BurnsMax, cfg.SwapsMax = sdk.NewInt(m*r.Range(2, 4)), sdk.NewInt(m*r.Range(1, 3)), sdk.NewInt(m*r.Range(1, 3)/2)
+	funds := plainFunds()
+	h := startHist("blocks", cfg, funds, dist)
+	h.now += r.Range(0, NS-1)
+	amt := func(lim sdk.Int) int64 { return lim.Int64() * r.Range(20, 60) / 100 }
+	for blk := 0; blk < 5+r.Intn(4); blk++ {
+		kind := r.Intn(3)
+		if blk == 0 {
+			kind = 0
+		}
+		for i := 0; i < 2+r.Intn(3); i++ {
+			a := 1 + (blk+i)%NH
+			switch kind {
+			case 0:
+				v := amt(cfg.MintsMax)
+				w1, w2 := h.weight(1), h.weight(2)
+				h.mint(a, []int{1, 2}, []int64{sdk.NewDec(v / 2).Quo(w1).TruncateInt64() + 1, sdk.NewDec(v / 2).Quo(w2).TruncateInt64() + 1})
+			case 1:
+				x := amt(cfg.BurnsMax)
+				if own := h.bal(a, 0); x > own {
+					x = own
+				}
+				h.burn(a, 0, x)
+			default:
+				v := amt(cfg.SwapsMax)
+				in, out := 1+i%2, 2-i%2
+				x := sdk.NewDec(v).Quo(h.weight(in)).TruncateInt64() + 1
+				if r.Chance(30) {
+					h.swap(a, []pair{{in, x / 2, out}, {out, sdk.NewDec(v / 2).Quo(h.weight(out)).TruncateInt64() + 1, in}})
+				} else {
+					h.swap(a, []pair{{in, x, out}})
+				}
+			}
+		}
+		switch r.Intn(5) {
+		case 0:
+			h.now += r.Range(1, 50)
+		case 1:
+			h.now += P
+		case 2:
+			h.now += P + 1
+		case 3:
+			h.now += r.Range(1, 3)*NS + r.Range(0, NS-1)
+		default:
+			h.now += P / 2
+		}
+		if r.Chance(20) {
+			h.endBlock()
+		}
 	}
 	return h
 }
@@ -891,6 +979,8 @@ func main() {
 	for i := 0; i < *n; i++ {
 		if i%12 == 5 {
 			hs = append(hs, genWindowHistory(r.Fork(), dist))
+		} else if i%12 == 9 {
+			hs = append(hs, genBlockHistory(r.Fork(), dist))
 		} else {
 			hs = append(hs, genHistory(r.Fork(), dist))
 		}
